@@ -159,6 +159,8 @@ def run_scenario(spec, scn):
     """Execute + judge one scenario (also used by replay and the shrinker)."""
     from . import execu
     ora = oracle_of(spec['oracle'])
+    if getattr(ora, 'NO_POWERTRAIN', False):
+        return ora.run(scn, None, execu)
     H = execu.execute(scn)
     if hasattr(ora, 'run'):
         # oracles that need several executions (differentials) own the loop
